@@ -31,27 +31,35 @@ THEOREMS = [
     "C16_pinned_witness",
 ]
 RULE = (
-    "real for-nodes made by for_node / Cls.for_node / node.iter / node.zip over three importable term-building "
-    "body classes (4 inputs/1 output, 3 inputs/2 outputs, input/output label clash): every split of the inputs "
-    "into iterated / zipped / broadcast, lengths 1-4 (some 0, some unset), 1-4 runs of the SAME node with changed "
-    "lengths (also unchanged = cache hit), both output forms, column maps (rename, swap, onto a broadcast label), "
-    "use_cache on/off, body nodes on a controlled executor with every completion order for <= 4 rows (thorough) / "
-    "sampled (quick); plus dictionary_to_index_maps called directly on arbitrary key lists (duplicates, overlap, "
-    "missing keys, unsized data, None). Non-trivial = a run that returned a table of >= 2 rows; distinct by "
-    "canonical case"
+    "real for-nodes made by for_node / Cls.for_node / node.iter / node.zip / as a workflow child fed through data "
+    "connections, over three importable term-building body classes (4 inputs/1 output, 3 inputs/2 outputs, "
+    "input/output label clash): every split of the inputs into iterated / zipped / broadcast, lengths 1-4 (some 0, "
+    "some unset), 1-4 runs of the SAME node with changed lengths (also unchanged = cache hit), both output forms, "
+    "column maps (rename, swap, onto a broadcast label; also NON-renamings: onto a looped label, two outputs onto one "
+    "name, unknown keys, unmapped clashes), use_cache on/off, body nodes on a controlled executor with every "
+    "completion order for <= 4 rows (thorough) / sampled (quick), and on real thread and process pools; plus "
+    "dictionary_to_index_maps called directly on arbitrary key lists (duplicates, overlap, missing keys, unsized "
+    "data, None). Non-trivial = a run that returned a table of >= 2 rows; distinct by canonical case"
 )
 TRUSTED = [
-    "model ForLoop.indexMaps/indexMapsOf transcribe dictionary_to_index_maps; ForLoop.build/evalOuts/run transcribe "
-    "For._on_cache_miss/_build_body/_clean_existing_subgraph/_collect_output_*; validated only on the explored cases",
-    "evaluation of the built sub-graph is modelled as functional dataflow with NOT_DATA propagation; that the "
-    "composite scheduler realises this for every completion order is C01's theorem, here it is tested on all "
-    "completion orders of <= 4 rows with a deterministic executor",
+    "model ForLoop.indexMaps/indexMapsOf transcribe dictionary_to_index_maps; ForLoop.mk/build/evalOuts/run transcribe "
+    "For.__init_subclass__/_on_cache_miss/_build_body/_clean_existing_subgraph/_collect_output_*; validated only on "
+    "the explored cases",
+    "evaluation of the built sub-graph is modelled as functional dataflow with NOT_DATA propagation (a body has "
+    "delivered iff it is in the observed completion list); that the composite scheduler realises this for every "
+    "completion order is C01's theorem, here it is tested on all completion orders of <= 4 rows with a deterministic "
+    "executor and on real thread/process pools",
     "pandas.DataFrame abstracted to column order + list of row dicts",
+    "the library's policies on refused/failed runs (C05, C06) and on colliding column names (KF-C16-1 / its repair) "
+    "are observed by behaviour probes and handed to the model as configuration; the theorems hold for every value, "
+    "except that the unrestricted column-map statement needs the repaired class-creation check",
 ]
 ASSUMPTIONS = [
     "body function deterministic and argument-pure (values are free terms)",
     "after a refused/failed run the harness clears the for-node's `failed` flag before the next run",
     "looped inputs are python lists (the for-node's own `list` hint rejects anything else at assignment)",
+    "no label is looped twice (iter_on/zip_on duplicate-free and disjoint) at the node level; the index-map helper "
+    "alone is also exercised with duplicated and overlapping key lists",
 ]
 EXHAUSTIVE = {"quick": False, "thorough": True}
 
